@@ -9,3 +9,151 @@ pub mod model;
 pub mod oracle;
 pub mod p;
 pub mod prog;
+
+// ---------------------------------------------------------------------------------------------
+// Engine E6: runtime-tree cases decoded from fuzzer bytes (libFuzzer target `props_tree`)
+
+/// Byte decoder for the runtime case type (`host::Case`; the program generation of engine E5 is not part of it).
+/// Every choice consumes whole bytes from the FRONT of the input (`int_in_range` over at most 256 values = one byte
+/// modulo the range), so inputs can be written by hand: see `/verif/fuzzing/mkcorpus.py`. Exhausted input reads
+/// as zeros (the tree then closes with one-pair leaves). The domain is the one of the proptest generator
+/// `runtime-trees` in `main.rs`: same key and value alphabets, arrays of at most 4 pairs, nesting depth <= 4;
+/// the node count is capped at 24.
+pub mod fuzz {
+    use crate::host::{Case, Host};
+    use crate::model::{ExtSpec, Kv, Spec, Val};
+    use crate::p::MACRO_SHAPES;
+    use arbitrary::{Result, Unstructured};
+
+    pub const KEYS: [&str; 24] = [
+        "a", "b", "ab", "A", "", "é", "abc", "éa", "a.b", "a b", "k", "z", "c", "evt_kind", "span_name", "trace_id", "span_id", "span_parent", "ts",
+        "ts_start", "metric_name", "metric_agg", "metric_value", "lvl",
+    ];
+    pub const STRS: [&str; 8] = ["", "x", "text", "é", "1", "true", "0000000000000001", "span"];
+    pub const MAX_NODES: u32 = 24;
+
+    fn key(u: &mut Unstructured) -> Result<String> {
+        Ok(match u.int_in_range(0..=18)? {
+            0u8..=7 => KEYS[u.int_in_range(0..=2)?].to_string(),
+            8..=13 => KEYS[u.int_in_range(0..=5)?].to_string(),
+            14..=17 => KEYS[u.int_in_range(0..=KEYS.len() - 1)?].to_string(),
+            _ => {
+                let n = u.int_in_range(0..=3)?;
+                (0..n).map(|_| u.arbitrary::<char>()).collect::<Result<String>>()?
+            }
+        })
+    }
+
+    fn val(u: &mut Unstructured) -> Result<Val> {
+        Ok(match u.int_in_range(0..=14)? {
+            0u8..=3 => Val::I(u.int_in_range(-50i64..=999)?),
+            4 => Val::I(u.arbitrary()?),
+            5 => Val::U(u.arbitrary()?),
+            6 | 7 => Val::F(u.int_in_range(-1000i32..=999)? as f64 / 8.0),
+            8 => Val::B(u.arbitrary()?),
+            9..=11 => Val::S(STRS[u.int_in_range(0..=STRS.len() - 1)?].to_string()),
+            12 => Val::Null,
+            13 => Val::Trace(u.arbitrary::<u64>()?.max(1) as u128),
+            _ => Val::Span(u.arbitrary::<u64>()?.max(1)),
+        })
+    }
+
+    fn kvs(u: &mut Unstructured, max: usize) -> Result<Vec<Kv>> {
+        let n = u.int_in_range(0..=max)?;
+        (0..n).map(|_| Ok((key(u)?, val(u)?))).collect()
+    }
+
+    fn id64(u: &mut Unstructured) -> Result<Option<u64>> {
+        Ok(match u.int_in_range(0..=3)? {
+            0u8 | 1 => Some(u.arbitrary::<u64>()?.max(1)),
+            2 => None,
+            _ => Some(0),
+        })
+    }
+
+    fn leaf(u: &mut Unstructured) -> Result<Spec> {
+        Ok(match u.int_in_range(0..=25)? {
+            0u8..=2 => Spec::Pair((key(u)?, val(u)?), u.int_in_range(0..=1)?),
+            3..=11 => Spec::Slice(kvs(u, 5)?),
+            12 | 13 => Spec::Array(kvs(u, 4)?),
+            14 | 15 => Spec::BTree(kvs(u, 4)?, u.int_in_range(0..=1)?),
+            16..=18 => Spec::Hash(kvs(u, 4)?),
+            19 => Spec::Empty,
+            20 => Spec::Opt(None),
+            21 => Spec::Extent(if u.arbitrary::<bool>()? {
+                ExtSpec::Point(u.int_in_range(0..=99)?)
+            } else {
+                ExtSpec::Range(u.int_in_range(0..=99)?, u.int_in_range(0..=99)?)
+            }),
+            22 => Spec::SpanCtxt { trace: id64(u)?.map(|v| v as u128), parent: id64(u)?, span: id64(u)? },
+            23 | 24 => {
+                let n = u.int_in_range(0..=2)?;
+                let mut layers = Vec::new();
+                for _ in 0..n {
+                    layers.push((u.int_in_range(0..=6)? == 0u8, kvs(u, 3)?));
+                }
+                Spec::Frame(layers)
+            }
+            _ => Spec::Macro(u.int_in_range(0..=MACRO_SHAPES - 1)?, (0..4).map(|_| val(u)).collect::<Result<Vec<Val>>>()?),
+        })
+    }
+
+    fn name(u: &mut Unstructured) -> Result<String> {
+        Ok(STRS[u.int_in_range(0..=STRS.len() - 1)?].to_string())
+    }
+
+    pub fn spec(u: &mut Unstructured, depth: u32, budget: &mut u32) -> Result<Spec> {
+        *budget = budget.saturating_sub(1);
+        // byte 0 (and exhausted input) = leaf
+        if depth == 0 || *budget == 0 || u.int_in_range(0..=2)? == 0u8 {
+            return leaf(u);
+        }
+        let d = depth - 1;
+        let mut sub = |u: &mut Unstructured| -> Result<Box<Spec>> { Ok(Box::new(spec(u, d, budget)?)) };
+        Ok(match u.int_in_range(0..=19)? {
+            0u8..=5 => Spec::And(sub(u)?, sub(u)?),
+            6 | 7 => {
+                let n = u.int_in_range(0..=3)?;
+                let mut v = Vec::new();
+                for _ in 0..n {
+                    v.push(*sub(u)?);
+                }
+                Spec::Nested(v)
+            }
+            8 => Spec::Opt(Some(sub(u)?)),
+            9 => Spec::Boxed(sub(u)?),
+            10 => Spec::Arc(sub(u)?),
+            11 => Spec::Ref(sub(u)?),
+            12..=14 => Spec::Erased(u.int_in_range(0..=2)?, sub(u)?),
+            15 | 16 => Spec::Dedup(sub(u)?),
+            17 => Spec::AsMap(sub(u)?),
+            18 => Spec::Span { name: name(u)?, inner: sub(u)? },
+            _ => Spec::Metric { name: name(u)?, agg: name(u)?, value: val(u)?, inner: sub(u)? },
+        })
+    }
+
+    fn host(u: &mut Unstructured) -> Result<Host> {
+        Ok(match u.int_in_range(0..=16)? {
+            0u8..=8 => Host::Direct,
+            9..=11 => Host::Ambient { how: u.int_in_range(0..=6)?, root: u.int_in_range(0..=4)? == 0u8, under: kvs(u, 3)? },
+            12 => Host::Traceparent { under: kvs(u, 2)? },
+            _ => Host::Event { how: u.int_in_range(0..=2)?, ambient: kvs(u, 3)? },
+        })
+    }
+
+    pub fn decode(data: &[u8]) -> Result<Case> {
+        let mut u = Unstructured::new(data);
+        let host = host(&mut u)?;
+        let nth = u.arbitrary::<u8>()? as u32 * 0x0101_0101;
+        let mut budget = MAX_NODES;
+        let spec = spec(&mut u, 4, &mut budget)?;
+        Ok(Case { spec, host, nth })
+    }
+}
+
+/// libFuzzer entry (engine E6): decode the bytes into a runtime case and run the SAME oracle as the proptest generator
+/// `runtime-trees`. Listed known findings are stepped over by signature (`vcore::with_cx`).
+pub fn fuzz_entry(data: &[u8]) -> vcore::Res {
+    let Ok(case) = fuzz::decode(data) else { return Ok(()) };
+    vcore::with_cx("C02", |cx| host::check_case(&case, cx))
+}
